@@ -12,7 +12,7 @@ RULE = ("op roundtrip: random trees inside the quantifier (2..14 tips, thorough 
         "comments, branch comment without length, names with metacharacters / surrounding blanks / numeric inner names, ']' in "
         "comments, empty tip names, root with one child) for the correspondence only; op parse: valid texts with blanks inserted "
         "between tokens, truncations, splices, character mutations/insertions/deletions of valid texts and a fixed list of "
-        "hand-written edge cases; a case is non-trivial when it is a round trip inside the quantifier or an accepted text; "
+        "hand-written edge cases, number texts (long decimals, exponents, hex floats, underscores, halfway and overflow/underflow boundaries) in length and support position; a case is non-trivial when it is a round trip inside the quantifier or an accepted text; "
         "distinct = distinct case text")
 TRUSTED = ["tree built through NewNode/NewEdge + verif hooks (exact neighbour order); dump through Neigh()/Edges()/Left()/Right()",
            "strconv.ParseFloat / FormatFloat are re-implemented in Model/NewickNum.v (syntax of readFloat/special/underscoreOK, "
@@ -64,9 +64,12 @@ def nw(t, top=True):
 
 TIP_PLAIN = ["A", "B", "tip", "Homo_sapiens", "x1", "T", "F", "U", "N", "D"]
 TIP_ODD = ["a b", "'quoted name'", "\"dq\"", "a  b c", "é", "α β", "x/y", "1/2", "3/x", "a|b", "k=v", "a'b", "#1", "-", "+", "_", ".",
-           "a\tb", "a{1}", "x*", "100%", "a\\b", "naïve", "a.b", "e5", "0x", "1e", "--1"]
-TIP_NUM = ["12", "1e5", "0x1p-2", "-3.5", "1_0", "inf", "nan", "Infinity", "+inf", "0", "1.5", ".5", "5.", "1E-3", "0X1P+4", "007", "1e999", "-0"]
-INNER_OK = ["I1", "node 7", "a/b", "1/x", "x/2", "5x", "1/2/3", "Clade_A", "é", "n.1", "e1", "0x1", "1e", "p=0.5", "1//2", "/", "1/", "/2"]
+           "a\tb", "a{1}", "x*", "100%", "a\\b", "naïve", "a.b", "e5", "0x", "1e", "--1", "a\nb", "a\u00a0b", "x\u2003y", "日本", "a\rb", "1__0", "+nan", "infinit"]
+TIP_NUM = ["12", "1e5", "0x1p-2", "-3.5", "1_0", "inf", "nan", "Infinity", "+inf", "0", "1.5", ".5", "5.", "1E-3", "0X1P+4", "007", "1e999", "-0",
+           "1e+5", "0x1.8p1", "+.5e-3", "1_000.5", "-inf", "NaN", "0x_1p0", "1e1_0"]
+INNER_OK = ["I1", "node 7", "a/b", "1/x", "x/2", "5x", "1/2/3", "Clade_A", "é", "n.1", "e1", "0x1", "1e", "p=0.5", "1//2", "/", "1/", "/2",
+            ".", "-", "+", "_", "1_", "0x", "infinit", "nanx", "i", "1__0", "1e+", "0x1p", "--1", "1.2.3", ".e1", "0b1", "1f", "+nan", "1e_1", "0x1e5",
+            "0.5/x", "inf/x", "1/0x", "a\u00a0b", "1 2", "0.5 x"]
 COMS = ["c", "&x=1", "a b", "k:v", "z,w", "(p)", "q;r", "", " lead", "trail ", "a[b", "[[", "&&NHX:S=x:E=1.1", "a\tb", "l1\nl2", ";", ":", ",", "(", ")",
         "  ", "x=[1", "0.5", "é", "a/b", "';'"]
 
@@ -82,14 +85,15 @@ class G(Gen):
             if r < 0.92: return -Fraction(rng.randrange(1, 257), 64) if rng.random() < 0.9 else Fraction(-2)
             if r < 0.95: return Fraction(rng.randrange(1, 2**20), 2**20)
             # arbitrary binary64 values: 17 significant digits, tiny, huge, subnormal
-            if r < 0.98: return Fraction(rng.random() * 10.0 ** rng.randrange(-8, 9))
+            if r < 0.99: return Fraction(rng.random() * 10.0 ** rng.randrange(-8, 9))
             return Fraction(rng.choice([5e-324, 1.7976931348623157e308, 2.2250738585072014e-308, 1e21, 1e22, 1e23, 0.1, 0.30000000000000004,
                                         1e-7, 123456789012345680.0, 4503599627370496.5, 9007199254740992.0, 1e-320, 0.000001]))
         # support / p-value
         if r < 0.1: return Fraction(rng.choice([0, 1, 100]))
         if r < 0.8: return Fraction(rng.randrange(0, 65), 64)
         if r < 0.9: return Fraction(rng.randrange(0, 1025), 1024)
-        if r < 0.95: return Fraction(rng.random())
+        if r < 0.94: return Fraction(rng.random())
+        if r < 0.97: return -Fraction(rng.randrange(1, 64), 64)
         return Fraction(rng.randrange(0, 101))
 
     def fix(self, x):
@@ -180,7 +184,8 @@ class G(Gen):
         elif what == "innerblank" and inner:
             e, c = rng.choice(inner); c["name"] = rng.choice([" a", "a ", " a ", "a "]); e["sup"] = None; e["pv"] = None
         elif what == "numinner" and inner:
-            e, c = rng.choice(inner); c["name"] = rng.choice(["12", "0.5", "1e5", "0.5/0.25", "1/2", "inf/1", "0x1p-2", "1_0", "1e999", ".5/5."]); e["sup"] = None; e["pv"] = None
+            e, c = rng.choice(inner); c["name"] = rng.choice(["12", "0.5", "1e5", "0.5/0.25", "1/2", "inf/1", "0x1p-2", "1_0", "1e999", ".5/5.", "0x1.8p1", "1_000", "+1", "1e-5", "-inf", "Infinity",
+                                                                   ".5", "-1", "-1/-1", "1e5/0x1p1", "0.1", "0.1/0.2"]); e["sup"] = None; e["pv"] = None
         elif what == "numroot":
             t["name"] = rng.choice(["12", "0.5", "1/2", "1e5"])
         elif what == "brackcom":
@@ -244,9 +249,45 @@ def spaced(rng, s):
             out.append(rng.choice([" ", "\n", "\t "]))
     return "".join(out)
 
+NUMS = ["9007199254740993", "9007199254740992.5", "9007199254740994.999", "1.00000000000000011102230246251565404236316680908203125",
+        "1.000000000000000111022302462515654042363166809082031250000001", "1.00000000000000011102230246251565404236316680908203124999",
+        "4.9406564584124654e-324", "2.4703282292062327e-324", "2.4703282292062328e-324", "8.98846567431158e307", "1.7976931348623158e308",
+        "1.797693134862315807e308", "179769313486231580793728971405303415079934132710037826936173778980444968292764750946649017977587207096330286416692887910946555547851940402630657488671505820681908902000708383676273854845817711531764475730270069855571366959622842914819860834936475292719074168444365510704342711559699508093042880177904174497791.9",
+        "1e-310", "0.000000000000000000000000000000000000000000001e-300", "123456789012345678901234567890", "0.1234567890123456789e-5", "1e23", "1e22", "5e-324", "3e-324",
+        "0x1p-1074", "0x1p-1075", "0x1.8p-1075", "0x1.fffffffffffffp1023", "0x1.fffffffffffff8p1023", "0x1.fffffffffffff7ffp1023", "0x.8p1", "0X1.P+0", "0x1.00000000000008p0",
+        "0x1.000000000000080001p0", "0x1.00000000000018p0", "1_0.0_1", "1_e5", "1e5_", "0_1", "0x1_p1", "1.e1", ".e1", "1e-0", "-0.0", "+0", "00.100", "1e0000000001", "1e00000000000000000000"]
+
+def numtext(rng):
+    r = rng.random()
+    if r < 0.3:
+        return rng.choice(NUMS)
+    if r < 0.6:
+        # well-formed decimal with many digits and an exponent
+        ip = "".join(rng.choice("0123456789") for _ in range(rng.randrange(0, 25)))
+        fp = "".join(rng.choice("0123456789") for _ in range(rng.randrange(0, 25)))
+        t = rng.choice(["", "-", "+"]) + ip + ("." + fp if (fp or rng.random() < 0.2) else "")
+        if rng.random() < 0.5:
+            t += rng.choice("eE") + rng.choice(["", "-", "+"]) + str(rng.choice([0, 1, 5, 15, 22, 23, 300, 308, 309, 320, 324, 330, 400, 5000, 99999, 123456]))
+        return t
+    if r < 0.75:
+        hd = "".join(rng.choice("0123456789abcdefABCDEF") for _ in range(rng.randrange(0, 18)))
+        hf = "".join(rng.choice("0123456789abcdef") for _ in range(rng.randrange(0, 18)))
+        return rng.choice(["", "-"]) + rng.choice(["0x", "0X"]) + hd + ("." + hf if hf else "") + rng.choice(["p", "P", ""]) + rng.choice(["", "-", "+"]) + str(rng.choice([0, 1, 52, 53, 970, 1023, 1024, 1074, 1075, 1100, 20000]))
+    return "".join(rng.choice("0123456789.eE+-_xXpPabfinINF") for _ in range(rng.randrange(1, 9)))
+
+def caterpillar(n, rng):
+    t = {"name": "t0", "coms": [], "slots": [None]}
+    for i in range(1, n):
+        tip = {"name": "t%d" % i, "coms": [], "slots": [None]}
+        e1 = {"len": Fraction(i % 7, 64), "sup": None, "pv": None, "coms": []}
+        e2 = {"len": Fraction(1, 2), "sup": Fraction(1, 4) if t["slots"] != [None] and t["name"] == "" else None, "pv": None, "coms": []}
+        inner = {"name": "", "coms": [], "slots": [None, (e1, tip), (e2, t)] if i < n - 1 else [(e1, tip), (e2, t)]}
+        t = inner
+    return t
+
 def gen(rng, tier):
     g = G(rng)
-    nwf, nout, nval, nmal = {"quick": (650, 200, 100, 450), "thorough": (40000, 10000, 5000, 45000), "search": (300, 100, 50, 250)}[tier]
+    nwf, nout, nval, nmal, nnum = {"quick": (600, 200, 100, 400, 150), "thorough": (40000, 10000, 5000, 35000, 10000), "search": (300, 100, 50, 250, 50)}[tier]
     hi = 40 if tier == "thorough" else 14
     out = []
     def rt(t, kind):
@@ -268,6 +309,13 @@ def gen(rng, tier):
     if tier != "search":
         for s in HAND:
             ps(s, "hand")
+        for d in (60, 150):
+            t = caterpillar(d, rng)
+            texts.append(nw(t))
+            rt(t, "wf")
+    for _ in range(nnum):
+        x = numtext(rng)
+        ps(rng.choice(["(A:%s,B);", "((A,B)%s,C);", "((A,B)%s/0.5,C);", "((A,B)0.5/%s:1,C);", "(A:%s"]) % x, "numfuzz")
     for _ in range(nval):
         s = rng.choice(texts)
         ps(spaced(rng, s) if rng.random() < 0.8 else s, "spaced")
